@@ -29,7 +29,6 @@ package main
 
 import (
 	"fmt"
-	"os"
 	"time"
 	"go/types"
 	"sort"
@@ -65,6 +64,7 @@ type relCallRec struct {
 	pre    *State
 	post   *State
 	res    []Val
+	dreach string
 }
 
 type relExtRec struct {
@@ -94,6 +94,12 @@ type Rel struct {
 	memo   map[string]bool
 	memoOn bool
 	lemmas, lemmasTried, lemmaMS int
+	doneIn map[string]bool
+	noAtoms bool
+	aligned map[*ssa.BasicBlock]bool
+	pending []*Obl
+	deny    map[string]bool
+	lemmaSeq int
 }
 
 func newRelRun() *RelRun {
@@ -159,7 +165,25 @@ func (c *Ctx) relStr(a, b Val, mode string) string {
 	if a.C[0] == b.C[0] {
 		fa = "true"
 	}
-	return sAnd(sEq(a.C[2], b.C[2]), sEq(a.C[1], b.C[1]), fa)
+	exp := sAnd(sEq(a.C[2], b.C[2]), sEq(a.C[1], b.C[1]), fa)
+	// The relation is used through an atom RELx(a, b) whose definition (the expansion above) is
+	// asserted for exactly the argument tuples that occur. Where two related strings flow
+	// through ite-merged heap arrays (a dispatch over 27 lexers) the atom is carried by
+	// congruence, and the quantifier is only opened where bytes are actually compared.
+	if c.rel != nil && c.rel.noAtoms {
+		return exp // under a quantifier over references: the arguments are not ground
+	}
+	fn := "RELU"
+	if mode == "eq" {
+		fn = "RELE"
+	}
+	if !c.ufuns[fn] {
+		c.ufuns[fn] = true
+		c.emit("(declare-fun " + fn + " ((Array Int Int) Int Int (Array Int Int) Int Int) Bool)")
+	}
+	atom := "(" + fn + " " + a.C[0] + " " + a.C[1] + " " + a.C[2] + " " + b.C[0] + " " + b.C[1] + " " + b.C[2] + ")"
+	c.assumeOnce(sEq(atom, exp))
+	return atom
 }
 
 func (c *Ctx) relStrBack(a, b Val, mode string) string { return "true" }
@@ -312,6 +336,23 @@ func (c *Ctx) relClauses(cls []*Clause, envA, envB *Env) string {
 	return sAnd(cs...)
 }
 
+// relKeeps: which unary clauses of callees / loops are imported as assumptions in mode R. Only
+// the structural ones (untagged, or tagged with a safety / well-formedness property) - bounds and
+// shapes are what the relation needs; the functional, cost and plain-input clauses only enlarge
+// the context. Dropping an assumption is always sound.
+func relKeeps(cl *Clause) bool {
+	if len(cl.Tags) == 0 {
+		return true
+	}
+	for _, t := range cl.Tags {
+		switch t {
+		case "C01", "C02", "C16", "C10", "C11":
+			return true
+		}
+	}
+	return false
+}
+
 // ---------------------------------------------------------------- loops
 
 func (r *Rel) relLoopState(c *Ctx, a, b *relLoopRec, stA, stB *State, assumeSide bool) string {
@@ -340,8 +381,26 @@ func (r *Rel) relLoopState(c *Ctx, a, b *relLoopRec, stA, stB *State, assumeSide
 			continue
 		}
 		q := c.fresh("rr")
+		r.noAtoms = true
 		body := c.relObject(a.fr, b.fr, stA, stB, sn, q, q, f, assumeSide)
-		cs = append(cs, "(forall (("+q+" Int)) "+body+")")
+		r.noAtoms = false
+		// triggers: any read of one of the field's heap arrays (of either run) at a reference
+		pats := ""
+		for _, key := range c.heapKeys {
+			if !strings.HasPrefix(key, sf+".") {
+				continue
+			}
+			for _, h := range []string{stA.heap[key], stB.heap[key]} {
+				if isAtom(h) && c.declared[h] {
+					pats += " :pattern ((select " + h + " " + q + "))"
+				}
+			}
+		}
+		if pats != "" && strings.Contains(body, q) {
+			cs = append(cs, "(forall (("+q+" Int)) (! "+body+pats+"))")
+		} else {
+			cs = append(cs, "(forall (("+q+" Int)) "+body+")")
+		}
 	}
 	if a.li.lc != nil && len(a.li.lc.RelInvariants) > 0 {
 		envA := &Env{fr: a.fr, cur: stA, old: a.fr.entry, useCells: true, vars: map[string]Val{}, loop: a.li}
@@ -372,7 +431,10 @@ func (r *Rel) loopHead(fr *Frame, li *LoopInfo, entry *State, reach string, head
 	lname := fmt.Sprintf("loop%d", li.ordinal)
 	both := sAnd(a.entryReach, reach)
 	c.oblige(fr.oname("rel/"+lname, "entry"), "rel", r.tags, both, r.relLoopState(c, a, rec, a.entry, rec.entry, false), c.pr.lineOf(li.header.Instrs[0].Pos()), "states of the two runs are related when both enter the loop")
-	c.assume(sImp(both, r.relLoopState(c, a, rec, a.head, rec.head, true)))
+	r.memoOn = true
+	hrel := r.relLoopState(c, a, rec, a.head, rec.head, true)
+	r.memoOn = false
+	c.assume(sImp(both, hrel))
 }
 
 func (r *Rel) backEdge(fr *Frame, li *LoopInfo, st *State, cond string) {
@@ -415,40 +477,52 @@ func (r *Rel) blockLemma(fr *Frame, b *ssa.BasicBlock, reachB string) {
 	if !ok || ra == reachB || ra == "true" && reachB == "true" {
 		return
 	}
-	r.proveAndAssume(c, sEq(ra, reachB))
+	if len(b.Preds) == 1 && len(b.Preds[0].Succs) == 2 && b.Preds[0].Succs[1] == b && b.Preds[0].Succs[0] != b && r.aligned[b.Preds[0].Succs[0]] && r.aligned[b.Preds[0]] {
+		// the else-target of a branch whose block and then-target are aligned: follows propositionally
+		r.aligned[b] = true
+		return
+	}
+	if *flagVerbose {
+		for _, in := range b.Instrs {
+			if p := in.Pos(); p.IsValid() {
+				fmt.Printf("  block %d line %d\n", b.Index, c.pr.lineOf(p))
+				break
+			}
+		}
+	}
+	if r.proveAndAssume(c, fmt.Sprintf("block:%d", b.Index), sEq(ra, reachB)) {
+		r.aligned[b] = true
+	}
 }
 
-func (r *Rel) proveAndAssume(c *Ctx, goal string) bool {
-	if r.proveOnly(c, goal) {
+func (r *Rel) proveAndAssume(c *Ctx, key, goal string) bool {
+	if r.proveOnly(c, key, goal) {
 		c.assume(goal)
 		return true
 	}
 	return false
 }
 
-func (r *Rel) proveOnly(c *Ctx, goal string) bool {
-	var q strings.Builder
-	q.WriteString("(set-logic ALL)\n")
-	for _, l := range c.lines {
-		q.WriteString(l)
-		q.WriteByte('\n')
+// proveOnly registers an auxiliary lemma. Lemmas are used optimistically while the obligations
+// are generated and are all discharged (in parallel, each against the assumptions that preceded
+// it) before the function's obligations are returned; if one is not proved, generation is
+// repeated without it (verifyRelational), so that no obligation ever rests on an unproved lemma.
+func (r *Rel) proveOnly(c *Ctx, key, goal string) bool {
+	r.lemmaSeq++
+	if r.deny[key] {
+		return false
 	}
-	q.WriteString("(assert (not " + goal + "))\n(check-sat)\n")
-	res, _, d := raceSolvers(relSolvers, q.String(), 4)
-	r.lemmaMS += int(d / time.Millisecond)
-	r.lemmasTried++
-	if *flagVerbose && res != "unsat" {
-		os.MkdirAll("/tmp/vcdump", 0o755)
-		os.WriteFile(fmt.Sprintf("/tmp/vcdump/lemma_%d.smt2", r.lemmasTried), []byte(q.String()), 0o644)
+	r.pending = append(r.pending, &Obl{Name: "lemma/" + key, Kind: "rel", Goal: goal, Prefix: len(c.lines), ctx: c})
+	return true
+}
+
+func hashStr(s string) string {
+	h := uint64(1469598103934665603)
+	for i := 0; i < len(s); i++ {
+		h ^= uint64(s[i])
+		h *= 1099511628211
 	}
-	if *flagVerbose {
-		fmt.Printf("  lemma %s %dms: %s\n", res, int(d/time.Millisecond), clipStr(goal, 160))
-	}
-	if res == "unsat" {
-		r.lemmas++
-		return true
-	}
-	return false
+	return fmt.Sprintf("%x", h)
 }
 
 // ---------------------------------------------------------------- calls
@@ -461,7 +535,7 @@ func (r *Rel) relProven(c *Ctx, callee *ssa.Function) bool {
 func (r *Rel) call(fr *Frame, callee *ssa.Function, fc *FuncContract, args []Val, pre, post *State, res []Val, reach string, line int) {
 	c := fr.c
 	k := r.key(fr, "call:"+c.pr.funcName(callee))
-	rec := &relCallRec{fr: fr, callee: callee, fc: fc, reach: reach, args: args, pre: pre, post: post.clone(), res: res}
+	rec := &relCallRec{fr: fr, callee: callee, fc: fc, reach: reach, args: args, pre: pre, post: post.clone(), res: res, dreach: fr.dispatchReach}
 	r.cur.calls[k] = rec
 	if !r.inB() || !r.relProven(c, callee) {
 		return
@@ -474,7 +548,20 @@ func (r *Rel) call(fr *Frame, callee *ssa.Function, fc *FuncContract, args []Val
 	in := c.relParamsAndFootprint(callee, a.fr, fr, a.args, args, a.pre, pre, false)
 	preA := a.fr.calleeEnv(callee, a.args, a.pre, a.pre)
 	preB := fr.calleeEnv(callee, args, pre, pre)
-	in = sAnd(in, c.relClauses(fc.RelRequires, preA, preB))
+	both := sAnd(a.reach, reach)
+	if a.dreach != "" && rec.dreach != "" {
+		// one of the targets of a dynamic dispatch: the state is the same for every target, so
+		// the footprint part of the precondition is proved once, under the dispatch's own reach
+		dboth := sAnd(a.dreach, rec.dreach)
+		dk := dboth + "|" + in
+		if !r.doneIn[dk] {
+			r.doneIn[dk] = true
+			c.oblige(fr.oname("rel/dispatch", "requires"), "rel", r.tags, dboth, in, line, "the state handed to the dispatched function is related in the two runs")
+		}
+		in = c.relClauses(fc.RelRequires, preA, preB)
+	} else {
+		in = sAnd(in, c.relClauses(fc.RelRequires, preA, preB))
+	}
 	postA := a.fr.calleeEnv(callee, a.args, a.post, a.pre)
 	postA.results = a.res
 	postB := fr.calleeEnv(callee, args, rec.post, pre)
@@ -482,8 +569,9 @@ func (r *Rel) call(fr *Frame, callee *ssa.Function, fc *FuncContract, args []Val
 	out := r.relOut(c, callee, fc, a.fr, fr, postA, postB, a.res, res, true)
 	// the callee's relational precondition is an obligation of the caller (as a unary requires
 	// is); its relational postcondition is then available without a premise
-	both := sAnd(a.reach, reach)
-	c.oblige(fr.oname("rel/call:"+c.pr.funcName(callee), "requires"), "rel", r.tags, both, in, line, "arguments and the state they reach are related in the two runs at this call")
+	if in != "true" {
+		c.oblige(fr.oname("rel/call:"+c.pr.funcName(callee), "requires"), "rel", r.tags, both, in, line, "arguments and the state they reach are related in the two runs at this call")
+	}
 	c.assume(sImp(both, out))
 }
 
@@ -515,6 +603,19 @@ func (r *Rel) relOut(c *Ctx, fn *ssa.Function, fc *FuncContract, frA, frB *Frame
 		cs = append(cs, c.relClauses(fc.RelEnsures, envA, envB))
 	}
 	return sAnd(cs...)
+}
+
+// dispatch: lemma (proved on the spot) that both runs call the same function value.
+func (r *Rel) dispatch(fr *Frame, fv Val, reach string) {
+	k := r.key(fr, "dispatch")
+	rec := &relExtRec{fr: fr, name: "dispatch", args: []Val{fv}, reach: reach}
+	r.cur.exts[k] = rec
+	if !r.inB() {
+		return
+	}
+	if a := r.A.exts[k]; a != nil {
+		r.proveAndAssume(fr.c, k, sImp(sAnd(a.reach, reach), sAnd(sEq(a.args[0].C[0], fv.C[0]), sEq(a.args[0].C[1], fv.C[1]))))
+	}
 }
 
 // ---------------------------------------------------------------- library lemmas
@@ -589,7 +690,7 @@ func (r *Rel) ext(fr *Frame, name string, args []Val, res Val, reach string) {
 		} else {
 			same = sAnd(same, c.relStr(a.args[1], args[1], "eq"))
 		}
-		if r.proveOnly(c, sImp(both, same)) || r.proveOnly(c, sImp(both, prem)) {
+		if r.proveOnly(c, k+":identical", sImp(both, same)) || r.proveOnly(c, k+":same-matches", sImp(both, prem)) {
 			c.assume(sImp(both, sEq(a.res.C[0], res.C[0])))
 		}
 	case "strings.ToUpper", "strings.ToLower":
@@ -628,7 +729,50 @@ func (pr *Program) relTagsFor(fn *ssa.Function) []string {
 }
 
 // verifyRelational generates the mode R obligations of one function.
-func (pr *Program) verifyRelational(fn *ssa.Function) (c *Ctx) {
+func (pr *Program) verifyRelational(fn *ssa.Function) *Ctx {
+	deny := map[string]bool{}
+	tried, proved, ms := 0, 0, 0
+	for round := 0; ; round++ {
+		c := pr.verifyRelationalOnce(fn, deny)
+		if c.rel == nil {
+			return c
+		}
+		t0 := time.Now()
+		dischargeOnce(c.rel.pending, 10, 5)
+		ms += int(time.Since(t0) / time.Millisecond)
+		bad := 0
+		for _, o := range c.rel.pending {
+			if *flagDumpAll != "" && strings.Contains(o.Name, *flagDumpAll) {
+				dumpQuery(o, "/tmp/vcdump")
+			}
+			tried++
+			if o.Status == "discharged" {
+				proved++
+				continue
+			}
+			bad++
+			deny[strings.TrimPrefix(o.Name, "lemma/")] = true
+			if *flagVerbose {
+				fmt.Printf("  lemma %s not proved (%s): %s\n", o.Name, o.Status, clipStr(o.Goal, 200))
+				if *flagDumpAll != "" {
+					dumpQuery(o, "/tmp/vcdump")
+				}
+			}
+		}
+		if *flagVerbose {
+			fmt.Printf("  %s: round %d: %d lemmas, %d not proved\n", pr.funcName(fn), round, len(c.rel.pending), bad)
+		}
+		if bad == 0 || round >= 6 {
+			if bad != 0 {
+				c.errorf("%s: relational lemmas did not stabilise", pr.funcName(fn))
+			}
+			c.rel.lemmasTried, c.rel.lemmas, c.rel.lemmaMS = tried, proved, ms
+			return c
+		}
+	}
+}
+
+func (pr *Program) verifyRelationalOnce(fn *ssa.Function, deny map[string]bool) (c *Ctx) {
 	c = newCtx(pr, fn)
 	defer func() {
 		if rc := recover(); rc != nil {
@@ -636,7 +780,7 @@ func (pr *Program) verifyRelational(fn *ssa.Function) (c *Ctx) {
 		}
 	}()
 	fc := pr.Cs.Funcs[pr.funcName(fn)]
-	rel := &Rel{A: newRelRun(), B: newRelRun(), tags: pr.relTagsFor(fn), used: map[string]bool{}, memo: map[string]bool{}}
+	rel := &Rel{A: newRelRun(), B: newRelRun(), tags: pr.relTagsFor(fn), used: map[string]bool{}, memo: map[string]bool{}, doneIn: map[string]bool{}, aligned: map[*ssa.BasicBlock]bool{}, deny: deny}
 	c.rel = rel
 	runCopy := func(run *RelRun, tag string) {
 		rel.cur = run
@@ -720,7 +864,7 @@ func (pr *Program) verifyRelational(fn *ssa.Function) (c *Ctx) {
 	if len(rel.A.fr.rets) == len(rel.B.fr.rets) {
 		for i := range rel.A.fr.rets {
 			if ra, rb := rel.A.fr.rets[i].reach, rel.B.fr.rets[i].reach; ra != rb {
-				rel.proveAndAssume(c, sEq(ra, rb))
+				rel.proveAndAssume(c, fmt.Sprintf("return:%d", i), sEq(ra, rb))
 			}
 		}
 	}
